@@ -2,7 +2,7 @@
 SRC = ['repo:src/String.cpp', 'repo:src/Memory.cpp', 'repo:src/Mutex.cpp', 'repo:src/Time.cpp', 'repo:src/Error.cpp']
 UNITS = [dict(
     name='server', harness='harness/c13_server.cpp', sources=SRC, native=False,
-    defines={'quick': {'VF_K': 4, 'VF_WN': 2}, 'thorough': {'VF_K': 7, 'VF_WN': 3}},
+    defines={'quick': {'VF_K': 4, 'VF_WN': 2}, 'thorough': {'VF_K': 5, 'VF_WN': 3}},
     entries=['write_path'],
     opts={'all': {'unwind': 64, 'max_instr': 1500000}},
     split={'quick': 14, 'thorough': 16},
@@ -11,7 +11,7 @@ UNITS = [dict(
 )]
 BOUNDS = {
     'quick': 'one client created through pair(); histories of <= 4 operations out of write(1..2 symbolic bytes), suspend, resume, write-ready loop round, inbound data round; every send() outcome per call (would-block, error, any accepted prefix length); after every operation the peer stream, the backlog contents, postponed/send-buffer size and the registered epoll interest are compared with the model',
-    'thorough': 'histories of <= 7 operations, writes of 1..3 bytes',
+    'thorough': 'histories of <= 5 operations, writes of 1..3 bytes',
 }
 OUTSIDE = 'real TCP/epoll behaviour (the kernel is a model written from the man pages: socketpair, send, recv, epoll_ctl/epoll_wait, eventfd), more than one client, writes longer than 2 bytes'
 ASSUMPTIONS = ['real src/Socket/Server.cpp and src/Socket/Socket.cpp (included by the harness TU), Buffer, PoolList, HashSet, HashMap, MultiMap; kernel calls are engine models',
